@@ -444,6 +444,8 @@ func (prop) Run(c core.Case) core.Outcome {
 		r.runGet(c)
 	case "cmd":
 		r.runCmd(c)
+	case "biginject":
+		r.runBigInject(c)
 	default:
 		panic("harness: unknown op " + c.Op)
 	}
@@ -962,6 +964,11 @@ func (p prop) Gen(rd *rand.Rand, tier string) []core.Case {
 	g.genInject(420 * scale)
 	g.genGet(80 * scale)
 	g.genCmd(60 * scale)
+	if tier == "thorough" {
+		g.genBig(80)
+	} else {
+		g.genBig(12)
+	}
 	return g.cs
 }
 
